@@ -250,8 +250,20 @@ func ivUnit(iv int64) int64 {
 	return iv
 }
 
-func snapT(s scorch.VerifSnapMeta) cf.T { return cf.App("mkSnap", cf.U(s.Epoch), cf.Z(s.TimeNanos)) }
-func snapsT(l []scorch.VerifSnapMeta) cf.T { return cf.ListOf(l, snapT) }
+// snapsT prints a list of snapshots as (rb B [(epoch, ts-B); ...]) — RetentionCorr.rb adds B back —
+// because 19-digit literals dominate the time Coq needs to read a cases file.  Printing only;
+// B = 0 when a difference would not fit int64.
+func snapsT(b int64, l []scorch.VerifSnapMeta) cf.T {
+	for _, s := range l {
+		if d := s.TimeNanos - b; (b > 0 && d > s.TimeNanos) || (b < 0 && d < s.TimeNanos) {
+			b = 0
+			break
+		}
+	}
+	return cf.App("rb", cf.Z(b), cf.ListOf(l, func(s scorch.VerifSnapMeta) cf.T {
+		return cf.Pair(cf.U(s.Epoch), cf.Z(s.TimeNanos-b))
+	}))
+}
 
 func toMeta(l []Snap) []scorch.VerifSnapMeta {
 	rv := make([]scorch.VerifSnapMeta, len(l))
@@ -271,7 +283,7 @@ func exec(in In) vh.Result {
 		}); d != nil {
 			return vh.Result{Direct: d}
 		}
-		return vh.Result{Term: cf.App("CTimeSeries", cf.Int(in.N), cf.Z(in.Interval), snapsT(snaps), snapsT(out)),
+		return vh.Result{Term: cf.App("CTimeSeries", cf.Int(in.N), cf.Z(in.Interval), snapsT(base, snaps), snapsT(base, out)),
 			Nontrivial: len(out) >= 2, Hist: []string{"ts", fmt.Sprintf("ts:sampled=%d", len(out))}}
 	case "prot":
 		live := toMeta(in.Snaps)
@@ -284,7 +296,7 @@ func exec(in In) vh.Result {
 		}
 		impl := cf.None
 		if !panicked {
-			impl = cf.Some(cf.Pair(snapsT(prot), snapsT(cps)))
+			impl = cf.Some(cf.Pair(snapsT(base, prot), snapsT(base, cps)))
 		}
 		h := "prot:interval>0"
 		if in.Interval == 0 {
@@ -292,7 +304,7 @@ func exec(in In) vh.Result {
 		} else if in.Interval < 0 {
 			h = "prot:interval<0"
 		}
-		return vh.Result{Term: cf.App("CProtected", cf.Int(in.N), cf.Z(in.Interval), snapsT(live), impl),
+		return vh.Result{Term: cf.App("CProtected", cf.Int(in.N), cf.Z(in.Interval), snapsT(base, live), impl),
 			Nontrivial: in.Interval != 0 && len(prot) >= 2 && len(prot) < len(live),
 			Hist:       []string{"prot", h, fmt.Sprintf("prot:kept=%d", len(prot))}}
 	case "bound":
@@ -303,7 +315,7 @@ func exec(in In) vh.Result {
 		}); d != nil {
 			return vh.Result{Direct: d}
 		}
-		return vh.Result{Term: cf.App("CBoundary", cf.U(in.FBits), snapsT(cps), cf.Z(in.TS), cf.Z(out)),
+		return vh.Result{Term: cf.App("CBoundary", cf.U(in.FBits), snapsT(base, cps), cf.Z(in.TS), cf.Z(out)),
 			Nontrivial: out != in.TS, Hist: []string{"bound"}}
 	case "purge":
 		dir, err := os.MkdirTemp("/tmp", "vh_c13ret_")
@@ -330,9 +342,9 @@ func exec(in In) vh.Result {
 			return vh.Result{Direct: &vh.Direct{Kind: "error", Detail: err.Error()}}
 		}
 		kept := len(res.Eligible)
-		return vh.Result{Term: cf.App("CPurge", cf.Int(in.N), cf.Z(in.Interval), cf.U(in.FBits), snapsT(cps), snapsT(meta),
+		return vh.Result{Term: cf.App("CPurge", cf.Int(in.N), cf.Z(in.Interval), cf.U(in.FBits), snapsT(now, cps), snapsT(now, meta),
 			cf.ListOf(in.Eligible, cf.U), cf.Z(res.NowBefore), cf.Z(res.NowMid), cf.Z(res.NowAfter),
-			snapsT(res.Live), cf.Int(res.NumRemoved), cf.ListOf(res.BoltEpochs, cf.U), cf.ListOf(res.Eligible, cf.U), snapsT(res.CheckPoints)),
+			snapsT(now, res.Live), cf.Int(res.NumRemoved), cf.ListOf(res.BoltEpochs, cf.U), cf.ListOf(res.Eligible, cf.U), snapsT(now, res.CheckPoints)),
 			Nontrivial: res.NumRemoved >= 1 && kept >= 1,
 			Hist:       []string{"purge", fmt.Sprintf("purge:removed=%d", res.NumRemoved), fmt.Sprintf("purge:live=%d", len(res.Live))}}
 	}
@@ -340,6 +352,13 @@ func exec(in In) vh.Result {
 }
 
 func main() {
+	// quick tier: 16 small shards evaluate in parallel (bin/vcheck runs 16 coqc jobs); thorough: fewer, larger files
+	shard := 125
+	for i, a := range os.Args {
+		if (a == "-tier" || a == "--tier") && i+1 < len(os.Args) && os.Args[i+1] == "thorough" || a == "-tier=thorough" || a == "--tier=thorough" {
+			shard = 500
+		}
+	}
 	vh.Main(vh.Config{
 		Property:  "C13",
 		Imports:   []string{"Common.Bytes", "Scorch.Retention", "Scorch.RetentionCorr"},
@@ -353,6 +372,6 @@ func main() {
 			"purge (getLiveSnapshots + removeOldBoltSnapshots on a real root.bolt with existing checkpoints and an eligibleForRemoval list that also names never-persisted epochs; " +
 			"stamps kept >= 5 s away from the clock-dependent cutoff); " +
 			"non-trivial: ts with >= 2 sampled points, prot with sampling on that keeps >= 2 but not all, bound that moves the cutoff, purge that removes some and keeps some eligible epochs",
-		ShardSize: 250,
+		ShardSize: shard,
 	}, gen, exec)
 }
